@@ -546,6 +546,12 @@ pub struct SchedStats {
     max_points: usize,
     complete: bool,
     samples: Vec<Value>,
+    /// schedules whose replayed prefix met a different enabled set than the run it was derived from
+    #[serde(default)]
+    replay_divergences: Vec<(String, String)>,
+    /// schedules executed a second time to compare scheduling points and lock events
+    #[serde(default)]
+    replayed_twice: u64,
 }
 
 fn preemptions(record: &[(Vec<usize>, usize, Option<usize>)], upto: usize) -> usize {
@@ -554,9 +560,12 @@ fn preemptions(record: &[(Vec<usize>, usize, Option<usize>)], upto: usize) -> us
 
 /// All schedules of a pair of requests with at most `bound` preemptions, on the real handlers.
 fn explore_pair(inst: &mut Inst, state_steps: &[Step], reqs: &[Req], expect: &[Vec<Op>], names: &mut Vec<usize>, bound: usize, st: &mut SchedStats, deadline: Instant, label: &str) {
-    let mut stack: Vec<Vec<usize>> = vec![vec![]];
+    // a stack entry is a choice prefix together with the enabled sets its parent run met at those points:
+    // replaying the prefix must meet exactly the same sets (anything else is nondeterminism the scheduler
+    // does not own, and is reported as a machinery error, never as a verdict)
+    let mut stack: Vec<(Vec<usize>, Vec<Vec<usize>>)> = vec![(vec![], vec![])];
     let mut seen_prefix: HashSet<Vec<usize>> = HashSet::new();
-    while let Some(prefix) = stack.pop() {
+    while let Some((prefix, expected_enabled)) = stack.pop() {
         if Instant::now() > deadline {
             st.complete = false;
             return;
@@ -569,6 +578,24 @@ fn explore_pair(inst: &mut Inst, state_steps: &[Step], reqs: &[Req], expect: &[V
         st.schedules += 1;
         st.max_points = st.max_points.max(run.record.len());
         let sched_text = format!("{} schedule {:?}", label, run.record.iter().map(|(en, c, _)| en[*c]).collect::<Vec<_>>());
+        for (j, want) in expected_enabled.iter().enumerate() {
+            let got = run.record.get(j).map(|x| &x.0);
+            if got != Some(want) || run.record.get(j).map(|x| x.1) != Some(prefix[j]) {
+                if st.replay_divergences.len() < 10 {
+                    st.replay_divergences.push((label.to_string(), format!("{}: replaying prefix {:?}, point {} met enabled set {:?} (choice {:?}) but the parent run met {:?}", sched_text, prefix, j, got, run.record.get(j).map(|x| x.1), want)));
+                }
+                break;
+            }
+        }
+        if prefix.is_empty() && run.panics.is_empty() && !run.deadlock {
+            // the same schedule twice: identical scheduling points and identical lock events per thread
+            build_state(inst, state_steps);
+            let again = run_schedule(inst, reqs, &prefix);
+            st.replayed_twice += 1;
+            if (again.record != run.record || again.observed != run.observed) && st.replay_divergences.len() < 10 {
+                st.replay_divergences.push((label.to_string(), format!("{}: the default schedule run twice gave different scheduling points or lock events", sched_text)));
+            }
+        }
         if run.deadlock {
             if st.deadlocks.len() < 20 {
                 let held: Vec<String> = run.observed.iter().enumerate().map(|(t, o)| format!("T{}: {}", t, o.iter().map(|(l, k)| format!("{}{}", k, names.iter().position(|x| x == l).unwrap_or(99))).collect::<Vec<_>>().join(" "))).collect();
@@ -638,7 +665,7 @@ fn explore_pair(inst: &mut Inst, state_steps: &[Step], reqs: &[Req], expect: &[V
                 }
                 let mut p: Vec<usize> = run.record[..i].iter().map(|x| x.1).collect();
                 p.push(alt);
-                stack.push(p);
+                stack.push((p, run.record[..=i].iter().map(|x| x.0.clone()).collect()));
             }
         }
         if st.samples.len() < 3 && run.record.len() > 4 {
@@ -887,6 +914,8 @@ pub fn run(tier: &str, seed: u64) -> i32 {
                 sched.max_points = sched.max_points.max(w.sched.max_points);
                 sched.complete &= w.sched.complete;
                 sched.samples.extend(w.sched.samples);
+                sched.replay_divergences.extend(w.sched.replay_divergences);
+                sched.replayed_twice += w.sched.replayed_twice;
             }
             Err(e) => errors.push(e),
         }
@@ -904,6 +933,9 @@ pub fn run(tier: &str, seed: u64) -> i32 {
     // it; such schedules are still checked for deadlock by the scheduler's own lock model, they are
     // merely not instances of the static product model
     let nonconformant = sched.schedules - sched.conformant;
+    for (l, d) in sched.replay_divergences.iter().take(3) {
+        errors.push(format!("nondeterminism outside the scheduler ({}): {}", l, d));
+    }
     if !writer_pref {
         errors.push("the RwLock of this platform granted a recursive read behind a queued writer: Appendix C does not describe it".into());
     }
@@ -923,7 +955,7 @@ pub fn run(tier: &str, seed: u64) -> i32 {
         "samples": reps.iter().take(4).map(|t| json!({"handler": t.method, "variant": t.label, "state": t.state, "lock_trace": t.ops.iter().map(|o| format!("{:?}", o)).collect::<Vec<_>>()})).chain(sched.samples.iter().take(3).cloned()).collect::<Vec<_>>(),
         "handler_runs_extracted": traces.len(), "distinct_lock_traces": reps.len(), "distinct_compressed_traces": creps.len(), "recursive_reads_of_locks_without_writer": harmless_recursive.iter().collect::<Vec<_>>(), "model_combinations": combos,
         "locks": lock_sites.iter().map(|(k, v)| (k.clone(), v.iter().take(6).cloned().collect::<Vec<_>>())).collect::<BTreeMap<_, _>>(),
-        "controlled_scheduler": {"pairs": sched.pairs, "schedules_run_on_real_handlers": sched.schedules, "schedules_conformant_with_model": sched.conformant, "schedules_where_a_handler_took_another_branch": nonconformant, "example_other_branch": sched.nonconformant.iter().take(2).map(|x| trunc(&x.1, 400)).collect::<Vec<_>>(), "preemption_bound": if thorough { 2 } else { 1 }, "max_scheduling_points": sched.max_points, "complete": sched.complete},
+        "controlled_scheduler": {"pairs": sched.pairs, "schedules_run_on_real_handlers": sched.schedules, "schedules_conformant_with_model": sched.conformant, "schedules_where_a_handler_took_another_branch": nonconformant, "example_other_branch": sched.nonconformant.iter().take(2).map(|x| trunc(&x.1, 400)).collect::<Vec<_>>(), "preemption_bound": if thorough { 2 } else { 1 }, "max_scheduling_points": sched.max_points, "complete": sched.complete, "default_schedules_run_twice_identical": sched.replayed_twice, "replayed_prefixes_diverging": sched.replay_divergences.len()},
         "rwlock_on_this_platform_is_writer_preferring": writer_pref,
         "evaluations": combos + sched.schedules, "distinct_nontrivial": reps.len() as u64,
         "rule": "lock traces extracted from every handler x 6 state classes on the real code; BFS over the product of all pairs of distinct traces and all reader/reader/writer and reader/writer/writer triples under writer-preferring semantics; all schedules of all pairs with a bounded number of preemptions on the real handlers",
